@@ -115,6 +115,18 @@ def tilde(word):
     return e
 
 
+# a directory reached through a symbolic link: the configured path, not the link's target, is what the user wrote
+LINKROOT = "/dev/shm/rebench-verif.c03-links.%d" % os.getpid()
+VIA = LINKROOT + "/via"
+
+
+def make_links():
+    os.makedirs(LINKROOT + "/real/bin", exist_ok=True)
+    os.makedirs(LINKROOT + "/real/loc", exist_ok=True)
+    if not os.path.islink(VIA):
+        os.symlink("real", VIA)
+
+
 def make_case(g, rng, bad=False):
     typed = [0, 7, 2.5, True, -3]      # YAML scalars that are not strings
     values = dict(benchmark=rng.choice(["cmdB", "run %", "b~", "B%(input)s"]), cores=rng.choice(["1", "4", "c%", 0, 8]),
@@ -124,14 +136,14 @@ def make_case(g, rng, bad=False):
     # a second run of the same suite (another variable value): per-run values must not leak between runs
     second = rng.choice(["other", "o%", 5, "~/o"]) if rng.random() < 0.4 else None
     case = dict(
-        path=rng.choice([None, "/abs/p", "~/p", "rel", "rel/sub", "/abs/é"]),
+        path=rng.choice([None, "/abs/p", "~/p", "rel", "rel/sub", "/abs/é", VIA + "/bin"]),
         exe=rng.choice(["exe", "./run.sh", "vm{1}", "~/bin/x"]),
         args=rng.choice([None, "", "-X %(cores)s", "--flag=%(executor)s 100%%"]),
         cmd_pieces=g.pieces(rng.randint(1, 8), bad=bad),
         extra_pieces=(g.pieces(rng.randint(1, 3)) if rng.random() < 0.5 else None),
         loc_pieces=rng.choice([None, None, [("lit", "/abs/loc")], [("lit", "~/loc")], [("lit", "lrel/d")], [("lit", "")],
                                [("lit", "/l/"), ("ph", "benchmark", "s")], [("lit", "/l/"), ("pct",), ("ph", "suite", "s")],
-                               [("lit", "~/"), ("ph", "variable", "s")]]),
+                               [("lit", "~/"), ("ph", "variable", "s")], [("lit", VIA + "/loc")]]),
         values=values,
         completed=rng.choice([0, 0, 1, 2, 9, 41]),
         env=rng.choice([{}, {"A": "1"}, {"P": "~/x", "Q": "a:~/b", "R": "~"}, {"HOMEISH": "~zz9/x", "S": "x y ~/z", "É": "ü%"},
@@ -272,6 +284,7 @@ def run(chk):
     g = Gen(rng)
     os.environ["HOME"] = HOME
     pcwd = os.getcwd()
+    make_links()
     n_ok = 1500 if tier == "quick" else 20000
     n_bad = 300 if tier == "quick" else 3000
     cases = []
@@ -325,9 +338,10 @@ def run(chk):
 
     sessions(chk)
     cli_sessions(chk)
+    shutil.rmtree(LINKROOT, ignore_errors=True)
     chk.coverage["rule"] = ("templates of 1-8 pieces (literal text over a shell-safe alphabet incl. { } ~ = : and non-ASCII, %%, "
                             "every placeholder with s/d conversions) x values incl. %, %%, %(x)s, ~ x paths (absent/absolute/"
-                            "relative/~) x locations x env maps incl. ~ and :-lists x completed invocations; a separate stream "
+                            "relative/~/through a symbolic link) x locations x env maps incl. ~ and :-lists x completed invocations; a separate stream "
                             "with one malformed piece (unknown key, missing conversion, stray %, %d of a string, unclosed key); "
                             "distinct = distinct generated cases; all are non-trivial (at least one substitution)")
     chk.assumptions += ["shlex.split on strings without quotes/backslashes is splitting at blanks (checked against shlex per case)",
